@@ -17,9 +17,10 @@ from report import Check
 
 UNITS = ["src/Basic/VectorHelper.cpp", "src/Matrix/AMatrixDense.cpp", "src/Matrix/AMatrix.cpp", "src/Matrix/MatrixRectangular.cpp",
          "src/Matrix/MatrixSquareSymmetric.cpp", "src/Matrix/MatrixSquareGeneral.cpp", "src/Matrix/AMatrixSquare.cpp",
-         "src/LinearOp/CholeskyDense.cpp"]
+         "src/LinearOp/CholeskyDense.cpp", "src/Matrix/MatrixSparse.cpp"]
 # kernels that are only meaningful for a square matrix (the caller checks isSquare first): R == C is their precondition
 SQUARE_ONLY = {"AMatrixDense::_invert": "AMatrix::invert() calls it only when isSquare()",
+               "MatrixSparse::prodNormDiagVecInPlace": "D M D with D = diag(vec) of the size of the matrix: defined for a square matrix only (the size test on `vec` precedes)",
                "AMatrixDense::_solve": "AMatrix::solve() calls it only when isSquare()",
                "AMatrixDense::_computeEigen": "eigen decomposition of a square matrix",
                "AMatrixDense::_computeGeneralizedEigen": "eigen decomposition of a square matrix",
@@ -62,7 +63,10 @@ def sibling_length_test(prog, short, nparams, vec_name):
 def rule_a(prog, chk):
     n = 0
     for f in sorted(prog.funcs, key=lambda x: (x.file, x.line)):
-        if f.cls != "AMatrixDense" or f.body is None or f.kind != "method":
+        if f.cls not in ("AMatrixDense", "MatrixSparse") or f.body is None or f.kind != "method":
+            continue
+        # sparse storage: the product kernels only (their Eigen branch uses the same `_eigenMatrix` idiom as the dense class)
+        if f.cls == "MatrixSparse" and "prod" not in f.short.lower():
             continue
         uses = any(x["k"] == "MemberExpr" and x["n"] == "_eigenMatrix" for x in f.walk())
         if not uses:
@@ -441,6 +445,16 @@ def main(tier):
     chk.floor("C11e", ne, 25)
     import c11_gating
     c11_gating.rule_f(prog, chk, ["src/Basic/VectorHelper.cpp"], 8)
+    import c11_more
+    uprog = Program().load_dir(extract([os.path.join(REPO, "src/Matrix/MatrixFactory.cpp")], "C11u-" + tier))
+    uprog.load_dir(d)
+    chk.units += [u for u in uprog.units if u not in chk.units]
+    c11_more.rule_k(prog, chk)
+    c11_more.rule_m(prog, chk)
+    c11_more.rule_n(prog, chk)
+    c11_more.rule_s(prog, chk)
+    c11_more.rule_t(mprog, chk)
+    c11_more.rule_u(uprog, chk)
     chk.ob("C11c", "positive control: the racy region of witness/omp_control.cpp is flagged and the reduction region is not",
            "witness/omp_control.cpp", nctl == 2 and len(flagged) == 1 and len(clean) == 1,
            detail="the OpenMP rule no longer recognises its control unit (regions=%d, flagged=%d)" % (nctl, len(flagged)),
